@@ -3,12 +3,7 @@ correspondence runs tie the model to the code, and what is assumed."""
 
 PROPS = {
     "C19": {
-        "theorems": [
-            "SV.Props.C19.id_in_range",
-            "SV.Props.C19.id_depends_on_suffix_only",
-            "SV.Props.C19.id_onto",
-            "SV.Props.C19.mask_segments_sound",
-        ],
+        "theorems": ["SV.Props.C19.id_in_range", "SV.Props.C19.id_depends_on_suffix_only", "SV.Props.C19.id_onto", "SV.Props.C19.mask_segments_sound", "SV.Props.C19.sharded_put_then_read", "SV.Props.C19.sharded_remove_then_read", "SV.Props.C19.sharded_invariant", "SV.Props.C19.sharded_range_is_union"],
         "modules": ["SV.Props.C19"],
         "runs": [{"component": "shard", "thorough_seeds": 2}],
         "rule": "histories of masks/id/onto/maskseg operations; distinct = distinct (operation kind, output) pairs observed on the implementation; "
@@ -21,7 +16,7 @@ PROPS = {
         ],
     },
     "C01": {
-        "theorems": [],
+        "theorems": ["SV.Props.C01.nonce_run", "SV.Props.C01.nonce_run_select", "SV.Props.C01.reachable_lists_sorted"],
         "modules": ["SV.Props.C01"],
         "runs": [{"component": "txcache", "thorough_seeds": 3}],
         "rule": "random add/rm/clear/sel histories over a small transaction alphabet (hash determines content) under boundary-biased configurations; distinct = distinct (operation kind, canonical output incl. full API dump) pairs observed on the implementation",
@@ -31,7 +26,7 @@ PROPS = {
         ],
     },
     "C02": {
-        "theorems": [],
+        "theorems": ["SV.Props.C02.distinct_members", "SV.Props.C02.count_bound", "SV.Props.C02.gas_sum_and_budget", "SV.Props.C02.no_bad_guard", "SV.Props.C02.balances_cover", "SV.Props.C02.current_does_not_wrap", "SV.Props.C02.legacy_gas_counterexample"],
         "modules": ["SV.Props.C02"],
         "runs": [{"component": "txcache", "thorough_seeds": 3}],
         "rule": "random add/rm/clear/sel histories over a small transaction alphabet (hash determines content) under boundary-biased configurations; distinct = distinct (operation kind, canonical output incl. full API dump) pairs observed on the implementation",
@@ -41,7 +36,7 @@ PROPS = {
         ],
     },
     "C03": {
-        "theorems": [],
+        "theorems": ["SV.Props.C03.ppu_is_floor", "SV.Props.C03.comparator_strict_total", "SV.Props.C03.pops_the_best", "SV.Props.C03.order_independent", "SV.Props.C03.stricter_limits_give_prefix", "SV.Props.C03.repeatable", "SV.Props.C03.legacy_ppu_truncates"],
         "modules": ["SV.Props.C03"],
         "runs": [{"component": "txcache", "thorough_seeds": 3}],
         "rule": "random add/rm/clear/sel histories over a small transaction alphabet (hash determines content) under boundary-biased configurations; distinct = distinct (operation kind, canonical output incl. full API dump) pairs observed on the implementation",
@@ -51,7 +46,7 @@ PROPS = {
         ],
     },
     "C04": {
-        "theorems": [],
+        "theorems": ["SV.Props.C04.insert_is_ordered_insert", "SV.Props.C04.lists_sorted_add", "SV.Props.C04.lists_sorted_remove", "SV.Props.C04.sorted_has_no_duplicates", "SV.Props.C04.add_semantics", "SV.Props.C04.add_leaves_other_senders", "SV.Props.C04.remove_semantics", "SV.Props.C04.lookups_agree", "SV.Props.C04.trim_partial", "SV.Props.C04.trim_incomplete_F3"],
         "modules": ["SV.Props.C04"],
         "runs": [{"component": "txcache", "thorough_seeds": 3}],
         "rule": "random add/rm/clear/sel histories over a small transaction alphabet (hash determines content) under boundary-biased configurations; distinct = distinct (operation kind, canonical output incl. full API dump) pairs observed on the implementation",
@@ -61,7 +56,7 @@ PROPS = {
         ],
     },
     "C05": {
-        "theorems": [],
+        "theorems": ["SV.Props.C05.invariant_of_every_reachable_pool", "SV.Props.C05.step_add", "SV.Props.C05.step_remove", "SV.Props.C05.step_clear", "SV.Props.C05.step_evict", "SV.Props.C05.step_threshold", "SV.Props.C05.emptied_pool_reports_zero", "SV.Props.C05.no_ghost", "SV.Props.C05.legacy_F4", "SV.Props.C05.legacy_F5", "SV.Props.C05.legacy_F6"],
         "modules": ["SV.Props.C05"],
         "runs": [{"component": "txcache", "thorough_seeds": 3}],
         "rule": "random add/rm/clear/sel histories over a small transaction alphabet (hash determines content) under boundary-biased configurations; distinct = distinct (operation kind, canonical output incl. full API dump) pairs observed on the implementation",
@@ -71,7 +66,7 @@ PROPS = {
         ],
     },
     "C06": {
-        "theorems": [],
+        "theorems": ["SV.Props.C06.sender_count_bound", "SV.Props.C06.sender_bytes_partial", "SV.Props.C06.eviction_postcondition", "SV.Props.C06.pool_bounds_after_add", "SV.Props.C06.no_pool_wide_drop_when_disabled"],
         "modules": ["SV.Props.C06"],
         "runs": [{"component": "txcache", "thorough_seeds": 3}],
         "rule": "random add/rm/clear/sel histories over a small transaction alphabet (hash determines content) under boundary-biased configurations; distinct = distinct (operation kind, canonical output incl. full API dump) pairs observed on the implementation",
@@ -81,7 +76,7 @@ PROPS = {
         ],
     },
     "C07": {
-        "theorems": [],
+        "theorems": ["SV.Props.C07.takes_least_valuable", "SV.Props.C07.batch_size", "SV.Props.C07.stops_when_within", "SV.Props.C07.noop_within_thresholds", "SV.Props.C07.loses_nonce_suffix", "SV.Props.C07.disappear_from_every_view", "SV.Props.C07.victim_independent_of_order"],
         "modules": ["SV.Props.C07"],
         "runs": [{"component": "txcache", "thorough_seeds": 3}],
         "rule": "random add/rm/clear/sel histories over a small transaction alphabet (hash determines content) under boundary-biased configurations; distinct = distinct (operation kind, canonical output incl. full API dump) pairs observed on the implementation",
@@ -91,7 +86,7 @@ PROPS = {
         ],
     },
     "C12": {
-        "theorems": [],
+        "theorems": ["SV.Props.C12.add_keeps_immune", "SV.Props.C12.eviction_skips_immune", "SV.Props.C12.protected_forever", "SV.Props.C12.protected_when_added", "SV.Props.C12.protected_when_immunized", "SV.Props.C12.all_immune_refused", "SV.Props.C12.refusal_changes_nothing", "SV.Props.C12.never_overwrites", "SV.Props.C12.legacy_F10"],
         "modules": ["SV.Props.C12"],
         "runs": [{"component": "immunity", "thorough_seeds": 2}],
         "rule": "random HasOrAdd/Put/Remove/ImmunizeKeys/Clear histories over 4-12 keys through ImmunityCache and CrossTxCache, 1-16 chunks, capacities at their lower bounds, sizes 0..500; thorough adds all histories of length 5 over an 11-operation alphabet (single chunk); distinct = distinct (operation kind, canonical output incl. full dump) pairs",
@@ -99,7 +94,7 @@ PROPS = {
         "assumptions": ["Go maps and container/list are modelled (association lists, lists); chunk routing by fnv32 is modelled exactly; item sizes are >= 0"],
     },
     "C13": {
-        "theorems": [],
+        "theorems": ["SV.Props.C13.chunk_invariant", "SV.Props.C13.flags_truthful", "SV.Props.C13.eviction_is_fifo", "SV.Props.C13.eviction_partition", "SV.Props.C13.remove_withdraws_immunity", "SV.Props.C13.immunize_gate"],
         "modules": ["SV.Props.C13"],
         "runs": [{"component": "immunity", "thorough_seeds": 2}],
         "rule": "random HasOrAdd/Put/Remove/ImmunizeKeys/Clear histories over 4-12 keys through ImmunityCache and CrossTxCache, 1-16 chunks, capacities at their lower bounds, sizes 0..500; thorough adds all histories of length 5 over an 11-operation alphabet (single chunk); distinct = distinct (operation kind, canonical output incl. full dump) pairs",
@@ -107,7 +102,7 @@ PROPS = {
         "assumptions": ["Go maps and container/list are modelled (association lists, lists); chunk routing by fnv32 is modelled exactly; item sizes are >= 0"],
     },
     "C15": {
-        "theorems": [],
+        "theorems": ["SV.Props.C15.invariant_put", "SV.Props.C15.invariant_hasOrAdd", "SV.Props.C15.invariant_get", "SV.Props.C15.invariant_remove", "SV.Props.C15.eviction_drops_lru_suffix", "SV.Props.C15.eviction_minimal", "SV.Props.C15.put_refreshes", "SV.Props.C15.negative_size_rejected", "SV.Props.C15.evicted_flag_truthful", "SV.Props.C15.get_refreshes", "SV.Props.C15.hasOrAdd_flags", "SV.Props.C15.simple_bound", "SV.Props.C15.simple_evicts_lru", "SV.Props.C15.put_invokes_each_handler_once", "SV.Props.C15.hasOrAdd_invokes_iff_added", "SV.Props.C15.registry_is_a_set", "SV.Props.C15.legacy_F11"],
         "modules": ["SV.Props.C15"],
         "runs": [{"component": "lru", "thorough_seeds": 2}],
         "rule": "random Put/HasOrAdd/Get/Peek/Has/Remove/Clear/Register/UnRegister histories over 3-8 keys on lrucache.NewCache (hashicorp LRU) and NewCacheWithSizeInBytes (capacityLRU), capacities 1-6, byte capacities 1..100000, sizes -3..1000; handler invocations collected per call; distinct = distinct (operation kind, canonical output incl. Keys order, Len, bytes, handler multiset) pairs",
@@ -115,63 +110,63 @@ PROPS = {
         "assumptions": ["hashicorp/golang-lru v0.6.0 simplelru and container/list are modelled from their source; handlers run on goroutines: the harness waits for quiescence (bounded) before reading the invocation multiset"],
     },
     "C08": {
-        "theorems": [],
+        "theorems": ["SV.Props.C08.get_is_logical_map", "SV.Props.C08.has_agrees_with_get", "SV.Props.C08.put_then_read", "SV.Props.C08.remove_then_read", "SV.Props.C08.flush_invisible", "SV.Props.C08.history_refines_map", "SV.Props.C08.mem_is_a_map", "SV.Props.C08.legacy_F8"],
         "modules": ["SV.Props.C08"],
         "runs": [{"component": "persist", "thorough_seeds": 2}],
         "rule": "random Put/Remove/tick/Close+reopen/RangeKeys histories over 3-7 keys (values nil, empty, short, long) on leveldb.DB, leveldb.SerialDB, memorydb and the sharded persister over each (2,3,5 shards), MaxBatchSize 1..100, real LevelDB directories, timer flushes by real waiting (BatchDelaySeconds=1); Get/Has of every key after every operation; distinct = distinct (operation kind, full read-back) pairs",
         "assumptions": ["goleveldb contract: Write(batch) applies the batch atomically and in order, Get/Has/NewIterator read the applied writes, Close/Open preserve them", "timer flush is modelled as an explicit tick event; the harness waits BatchDelaySeconds+0.35s for it"],
     },
     "C09": {
-        "theorems": [],
+        "theorems": ["SV.Props.C09.reopen_preserves_map", "SV.Props.C09.reopen_keeps_invariant", "SV.Props.C09.cycles", "SV.Props.C09.range_after_close"],
         "modules": ["SV.Props.C09"],
         "runs": [{"component": "persist", "thorough_seeds": 2}],
         "rule": "random Put/Remove/tick/Close+reopen/RangeKeys histories over 3-7 keys (values nil, empty, short, long) on leveldb.DB, leveldb.SerialDB, memorydb and the sharded persister over each (2,3,5 shards), MaxBatchSize 1..100, real LevelDB directories, timer flushes by real waiting (BatchDelaySeconds=1); Get/Has of every key after every operation; distinct = distinct (operation kind, full read-back) pairs",
         "assumptions": ["goleveldb contract: Write(batch) applies the batch atomically and in order, Get/Has/NewIterator read the applied writes, Close/Open preserve them", "timer flush is modelled as an explicit tick event; the harness waits BatchDelaySeconds+0.35s for it"],
     },
     "C16": {
-        "theorems": [],
+        "theorems": ["SV.Props.C16.behaves_like_map_of_acknowledged_writes", "SV.Props.C16.rejected_put", "SV.Props.C16.remove_both_layers", "SV.Props.C16.get_is_readonly"],
         "modules": ["SV.Props.C16"],
         "runs": [{"component": "unit", "thorough_seeds": 2}],
         "rule": 'random Put/Get/Has/Remove/ClearCache/GetBulk histories on storageUnit.Unit over every cacher the factory builds (LRU, SizeLRU, FIFOSharded) at capacities 1-6, over memorydb behind a fault-injecting wrapper (Put/Get/Remove rejected at random positions) and over real leveldb.DB / SerialDB; after every operation the injected cacher is read back (Keys/Peek) and fed to the model as the eviction outcome; distinct = distinct (operation kind, canonical output) pairs',
         "assumptions": ['the cacher is modelled as ANY cache that only returns what was put and not removed since (its eviction outcome is an input)', 'persister = map with a fault oracle'],
     },
     "C17": {
-        "theorems": [],
+        "theorems": ["SV.Props.C17.never_loses", "SV.Props.C17.spills_before_dropping", "SV.Props.C17.legacy_F11"],
         "modules": ["SV.Props.C17"],
         "runs": [{"component": "adapter", "thorough_seeds": 2}],
         "rule": 'random Put/Get/Has/Peek histories on storageCacherAdapter over the real capacityLRU (item capacities 1-4, byte capacities 1..100000, sizes 0..1000, re-puts with other sizes) and memorydb / real LevelDB; each key bound to one immutable value; distinct = distinct (operation kind, canonical output) pairs',
         "assumptions": ['values serialise to >= 1 byte (the adapter skips empty serialisations); sizes are >= 0 (negative sizes are rejected by the LRU)'],
     },
     "C20": {
-        "theorems": [],
+        "theorems": ["SV.Props.C20.never_more_than_size", "SV.Props.C20.invariant_put", "SV.Props.C20.invariant_hasOrAdd", "SV.Props.C20.invariant_remove", "SV.Props.C20.just_inserted_resident", "SV.Props.C20.survives_guaranteed_insertions", "SV.Props.C20.slots_per_shard", "SV.Props.C20.fifo_order", "SV.Props.C20.views_agree", "SV.Props.C20.hasOrAdd_inserts_iff_absent", "SV.Props.C20.put_invokes_each_handler_once"],
         "modules": ["SV.Props.C20"],
         "runs": [{"component": "fifo", "thorough_seeds": 2}],
         "rule": 'random Put/HasOrAdd/Get/Remove/Clear/Register/UnRegister histories on fifocache.NewShardedCache, 1-4 shards, sizes from 2 slots per shard; per-shard Keys order compared exactly with one shard; thorough adds all 12^5 histories over 4 keys (one shard, size 3); distinct = distinct (operation kind, canonical output) pairs',
         "assumptions": ['multiversx/concurrent-map v0.1.4 is modelled from its source (age-ordered view of the ring); keys are non-empty'],
     },
     "C18": {
-        "theorems": [],
+        "theorems": ["SV.Props.C18.retained_until_span_elapsed", "SV.Props.C18.dropped_by_later_sweep", "SV.Props.C18.upsert_max_and_restart", "SV.Props.C18.add_replaces_and_restarts", "SV.Props.C18.hasOrAdd_flags", "SV.Props.C18.brackets_sound_add", "SV.Props.C18.brackets_sound_upsert", "SV.Props.C18.brackets_sound_sweep", "SV.Props.C18.verdict_sound"],
         "modules": ["SV.Props.C18"],
         "runs": [{"component": "timecache", "thorough_seeds": 2}],
         "rule": 'histories of Add/AddWithSpan/Upsert/Put/HasOrAdd/Remove/Sweep/sleep on TimeCache, peerTimeCache and timeCacher with every call bracketed by monotonic clock readings fed to the model (two exact models bound the unknown reading: must/may); spans 40-300 ms (1 s for timeCacher); a liveness probe for the self-sweeper; distinct = distinct (operation kind, canonical output) pairs',
         "assumptions": ['clock readings are only known up to the bracket taken around each call; the model answers three-valued and the implementation must be inside', 'time.Now is monotone'],
     },
     "C11": {
-        "theorems": [],
+        "theorems": ["SV.Props.C11.block_structure_matches_source", "SV.Props.C11.linearizable", "SV.Props.C11.read_window", "SV.Props.C11.read_never_misses_a_returned_write", "SV.Props.C11.reads_never_go_backwards", "SV.Props.C11.flush_is_invisible", "SV.Props.C11.write_takes_effect_at_one_block"],
         "modules": ["SV.Props.C11"],
         "runs": [{"component": "concp", "thorough_seeds": 2}],
         "rule": "leveldb.DB and SerialDB, batch sizes 1-4: (1) forced schedules over 2-3 goroutines parked at every block boundary (verifPoint hooks) and replayed on the Lean block-interleaving model; (2) window probes: one operation parked at a hook (incl. inside the flush hand-over and between the batch reads) while probes run, history checked by porcupine; (3) randomised stress with delay injection at the hooks, checked by porcupine; distinct = distinct (operation kind, output) pairs",
         "assumptions": ["the all-schedules theorem is about the block-interleaving model (critical sections as atomic blocks, block structure tied to the source by regenerated facts and by forced schedules); Go memory-model races inside a block, fairness and goleveldb's internal concurrency are outside the model", "porcupine (linearizability checker) is a search aid for failing inputs, not a proof"],
     },
     "C10": {
-        "theorems": [],
+        "theorems": ["SV.Props.C10.every_write_is_synced", "SV.Props.C10.put_db_atomic", "SV.Props.C10.remove_db_atomic", "SV.Props.C10.flush_db", "SV.Props.C10.crash_during_flushing_put", "SV.Props.C10.crash_during_non_flushing_put", "SV.Props.C10.flushed_state_is_the_map", "SV.Props.C10.at_risk_bounded", "SV.Props.C10.invariant_put", "SV.Props.C10.invariant_remove"],
         "modules": ["SV.Props.C10"],
         "runs": [{"component": "crash", "thorough_seeds": 2}],
         "rule": "workloads of Put/Remove/tick/Close/reopen on leveldb.DB and SerialDB (batch sizes 1-5) over a recording goleveldb storage; at EVERY storage event (create/write/sync/setmeta/remove/rename) during a call and at every operation boundary crash images are materialised (unsynced tail none / torn at a random byte / all), reopened with the unmodified constructors and dumped by RangeKeys; the Lean model decides whether each recovered map is an allowed flush boundary; distinct = distinct (operation kind, output) pairs",
         "assumptions": ["that goleveldb applies a synced batch atomically and recovers it from a torn journal is observed on the sampled crash images, not proved", "that the timer fires within BatchDelaySeconds and kernel fsync semantics are outside the model", "Sync:true on every LevelDB write is a regenerated fact"],
     },
     "C14": {
-        "theorems": [],
+        "theorems": ["SV.Props.C14.no_lock_cycle", "SV.Props.C14.components_are_single_critical_sections", "SV.Props.C14.concurrent_selection_nonce_runs", "SV.Props.C14.concurrent_selection_budgets", "SV.Props.C14.concurrent_adds_sorted"],
         "modules": ["SV.Props.C14"],
         "runs": [{"component": "conc14", "thorough_seeds": 2, "race": True}],
         "rule": "concurrent workloads (4-8 goroutines, GOMAXPROCS 1/2/4/16) on TxCache (add/remove/select/iterate with eviction; adds only), ImmunityCache, LRU, sized LRU, FIFO cache, TimeCache and ConcurrentMap from a binary built with -race; yields injected at the txcache verifPoint hooks and inside host/session callbacks; oracles: no race / panic / deadlock (watchdog), C01/C02 on every concurrent selection, all concurrently added transactions present and ordered, immunized items survive, size bounds, quiescent CountTx/NumBytes; distinct = distinct (operation kind, output) pairs",
